@@ -1,0 +1,16 @@
+//go:build verif
+
+package codecs
+
+// Contracts for the contract-based deductive verification in /verif (engine: gvc).
+// Comment-only: with the tag off this file is not compiled, with it on it adds no code.
+//
+// C08: the codec parameters of a muxer's tracks are shared between the single writer (which replaces them
+// when a unit carries new parameter sets) and the HTTP handlers (which read them to build the multivariant
+// playlist and the init segment). Writes must happen inside a critical section ("*": the object does not
+// know its lock; some mutex of the muxer must be held); the writer may read without it.
+
+//@ struct H264 guarded_by * class muxer: SPS, PPS
+//@ struct H265 guarded_by * class muxer: VPS, SPS, PPS
+//@ struct AV1 guarded_by * class muxer: SequenceHeader
+//@ struct VP9 guarded_by * class muxer: Width, Height, Profile, BitDepth, ChromaSubsampling, ColorRange
